@@ -134,6 +134,33 @@ def scn_sampler_frame(T, case):
         if restore:
             for k, v in restore[1].items():
                 setattr(restore[0], k, v)
+    # a second sampler of the same method created afterwards with DIFFERENT options, then a third with none: options given to
+    # one sampler must not leak into another one (no state outside the sampler objects)
+    if case["method"] in ("uniform", "truncnorm") and not case["options"]:
+        log2 = []
+        stubs2 = dict(stubs)
+        stubs2[(MS, "_STATS_SAMPLERS")] = {k: C17._Dist(T, k, log2, draws) for k in C17.STATS}
+        if T.symbolic:
+            sh.ns[MS]["_STATS_SAMPLERS"] = stubs2[(MS, "_STATS_SAMPLERS")]
+        else:
+            import ropt.plugins.sampler.scipy as real2
+
+            saved2 = real2._STATS_SAMPLERS
+            real2._STATS_SAMPLERS = stubs2[(MS, "_STATS_SAMPLERS")]
+        try:
+            over = {"uniform": {"loc": 0.0, "scale": 0.5}, "truncnorm": {"a": -0.5, "b": 0.5}}[case["method"]]
+            mk = lambda opts: types.SimpleNamespace(samplers=(types.SimpleNamespace(method="scipy/" + case["method"], options=opts, shared=False),),  # noqa: E731
+                                                    variables=types.SimpleNamespace(initial_values=np.zeros(2)), realizations=types.SimpleNamespace(weights=np.ones(2) / 2),
+                                                    gradient=types.SimpleNamespace(number_of_perturbations=2))
+            given = dict(over)
+            cls(mk(given), 0, None, rng).generate_samples()
+            cls(mk({}), 0, None, rng).generate_samples()
+        finally:
+            if not T.symbolic:
+                real2._STATS_SAMPLERS = saved2
+        defaults = {"uniform": {"loc": -1.0, "scale": 2.0}, "truncnorm": {"a": -1.0, "b": 1.0}}[case["method"]]
+        kws = [e[3] for e in log2 if e[0] == "rvs"]
+        T.prove("C16.sampler.options_of_one_sampler_do_not_leak_into_another", len(kws) == 2 and kws[0] == over and kws[1] == defaults and given == over)
     T.prove("C16.sampler.scipy_is_called", len(log) >= 2)
     T.prove("C16.sampler.every_draw_uses_only_the_generator_it_was_given",
             all((e[2] is rng) for e in log if e[0] in ("rvs", "engine")))
@@ -156,7 +183,7 @@ def scn_options(T, case):
         cls = T.func(MSC, "SciPyOptimizer")
     stateful = np.random.default_rng(3)  # e.g. a seed option given as a generator object
     state0 = stateful.bit_generator.state
-    options = {"seed": stateful, "nested": {"values": [1, 2]}}
+    options = {"seed": stateful, "nested": {"values": [1, 2]}, "zero": 0, "empty": "", "off": False}
     opt = object.__new__(cls)
     opt._method = case["method"]
     opt._config = types.SimpleNamespace(optimizer=types.SimpleNamespace(options=options, max_iterations=None, output_dir=None), variables=types.SimpleNamespace(types=None))
@@ -164,7 +191,13 @@ def scn_options(T, case):
     out["seed"].random(4)  # what the back-end does with it
     out["nested"]["values"].append(3)
     T.prove("C16.options.stateful_option_objects_are_not_shared_with_the_configuration", out["seed"] is not stateful and stateful.bit_generator.state == state0)
-    T.prove("C16.options.configured_options_are_not_modified_by_the_back_end", options["nested"] == {"values": [1, 2]} and set(options) == {"seed", "nested"})
+    T.prove("C16.options.configured_options_are_not_modified_by_the_back_end", options["nested"] == {"values": [1, 2]} and set(options) == {"seed", "nested", "zero", "empty", "off"})
+    # every configured option reaches the back-end, falsy values included (an explicit seed of 0 is a seed)
+    T.prove("C16.options.every_configured_option_is_forwarded", out.get("zero", "missing") == 0 and out.get("empty", "missing") == "" and out.get("off", "missing") is False and "seed" in out)
+    opt2 = object.__new__(cls)
+    opt2._method = case["method"]
+    opt2._config = types.SimpleNamespace(optimizer=types.SimpleNamespace(options={"seed": 0}, max_iterations=None, output_dir=None), variables=types.SimpleNamespace(types=None))
+    T.prove("C16.options.an_explicit_seed_of_zero_is_forwarded", opt2._parse_options().get("seed", "missing") == 0)
 
 
 # ------------------------------------------------------------------------------------ sampler invocation order
